@@ -5,8 +5,12 @@
    API calls (Start, Every, Cancel, Size, IsSched) and worker steps (HandleAdd,
    HandleDel, Tick) — a worker step whose input is not ready is a no-op, so the lists are
    exactly the orders in which the scheduler goroutine can pick among its ready inputs.
-   [reachable m]: m is the state after some history from a fresh wheel (at any position)
-   or a fresh heap. *)
+   [reachable m]: m satisfies the machine invariant of C05/Machine.v and is related to a
+   state of the specification; every state after a history from a fresh wheel (at any
+   position) or a fresh heap that does not exhaust the 63-bit id counter is reachable
+   (c06_reachable_from_fresh), and so is every state after a further history that fits
+   the counter ([fits m ops]: snext m + length ops < 2^63 - 1).  The id allocation across
+   the counter's wrap is covered by c06_ids_unique_wrap. *)
 From Coq Require Import ZArith List Bool.
 From FV Require Import Generated.Consts C05.Model C05.Spec C05.Machine C06.Proofs C06.Others.
 Import ListNotations.
@@ -32,7 +36,7 @@ Print Assumptions c06_size_counts_scheduled.
    as scheduled": for EVERY continuation of the history — whatever the order of the
    worker's handling of the start request, of ticks and of other requests. *)
 Theorem c06_cancel_final : forall m id ops,
-  reachable m -> mem id (srefer m) = true ->
+  reachable m -> fits m ops -> mem id (srefer m) = true ->
   let m1 := fst (step m (Cancel id)) in
   (forall l, In (ODeliv l) (snd (run m1 ops)) -> ~ In id (map fst l)) /\
   ~ In id (srefer (fst (run m1 ops))) /\
@@ -43,7 +47,7 @@ Print Assumptions c06_cancel_final.
 
 (* the same for an id that left the map in any way (delivered one-shot, cancelled) *)
 Theorem c06_gone_forever : forall id ops m,
-  reachable m -> gone id m ->
+  reachable m -> fits m ops -> gone id m ->
   gone id (fst (run m ops)) /\
   (forall l, In (ODeliv l) (snd (run m ops)) -> ~ In id (map fst l)).
 Proof. exact gone_forever. Qed.
@@ -70,7 +74,7 @@ Print Assumptions c06_cancel_false_inert.
    apart from those of i (each delivery list is in due order by c05_*_order).  [oth_allc]
    is that position-wise relation (C06/Others.v). *)
 Theorem c06_others_undisturbed : forall m i ops,
-  reachable m -> mem i (srefer m) = true ->
+  reachable m -> fits m ops -> mem i (srefer m) = true ->
   oth_allc i ops (snd (run (fst (step m (Cancel i))) ops)) (snd (run m ops)).
 Proof. exact others_undisturbed. Qed.
 Print Assumptions c06_others_undisturbed.
@@ -87,7 +91,7 @@ Print Assumptions c06_no_crash.
 
 (* "timer ids handed out are unique among pending timers" — and never reused at all. *)
 Theorem c06_ids_unique : forall m d,
-  reachable m ->
+  reachable m -> snext m + 1 < 2 ^ 63 ->
   exists b id, snd (step m (Start d)) = OId b id /\ id = snext m + 1 /\
                ~ In id (srefer m) /\ ~ In id (all_ids m) /\ ~ In id (spdel m) /\
                NoDup (srefer (fst (step m (Start d)))).
@@ -95,12 +99,28 @@ Proof. exact start_fresh. Qed.
 Print Assumptions c06_ids_unique.
 
 Theorem c06_ids_unique_every : forall m p,
-  reachable m ->
+  reachable m -> snext m + 1 < 2 ^ 63 ->
   exists b id, snd (step m (Every p)) = OId b id /\ id = snext m + 1 /\
                ~ In id (srefer m) /\ ~ In id (all_ids m) /\ ~ In id (spdel m) /\
                NoDup (srefer (fst (step m (Every p)))).
 Proof. exact every_fresh. Qed.
 Print Assumptions c06_ids_unique_every.
+
+(* ... and across the wrap of the id counter: in ANY state, with the counter anywhere in
+   its range, the id a start hands out is positive and not in use — unless all 10^4
+   candidates nextID() probes are in use (then the code gives up and returns a used one). *)
+Theorem c06_ids_unique_wrap : forall m d,
+  ~ exhausted (Z.to_nat 10000) (wrap64 (snext m + 1)) (srefer m) ->
+  exists b id, snd (step m (Start d)) = OId b id /\ 0 < id /\ ~ In id (srefer m).
+Proof. exact start_unique_wrap. Qed.
+Print Assumptions c06_ids_unique_wrap.
+
+Theorem c06_reachable_from_fresh : forall ops,
+  short ops ->
+  (forall cur tt, 0 <= cur -> reachable (fst (run (init_wheel cur tt) ops))) /\
+  (forall now, reachable (fst (run (init_heap now) ops))).
+Proof. exact reachable_fresh. Qed.
+Print Assumptions c06_reachable_from_fresh.
 
 (* "no such ordering stalls the scheduler": whenever a request is pending the worker's arm
    for it is enabled and consumes it, the ticker arm is always enabled; no step waits for
@@ -136,9 +156,11 @@ Example c06_example_others :
   oth_allc 1 [HandleAdd; HandleAdd; Pass 3; Tick; IsSched 2; Cancel 2]
     (snd (run (fst (step (fst (run (init_heap 0) [Start 2; Start 3])) (Cancel 1))) [HandleAdd; HandleAdd; Pass 3; Tick; IsSched 2; Cancel 2]))
     (snd (run (fst (run (init_heap 0) [Start 2; Start 3])) [HandleAdd; HandleAdd; Pass 3; Tick; IsSched 2; Cancel 2])).
-Proof. apply c06_others_undisturbed; [constructor|reflexivity]. Qed.
+Proof.
+  apply c06_others_undisturbed; [apply (reachable_from_heap 0 [Start 2; Start 3]); vm_compute; reflexivity|vm_compute; reflexivity|reflexivity].
+Qed.
 
 Example c06_example_reachable :
   reachable (fst (run (init_wheel 1000 0) [Start 1; HandleAdd])) /\
   mem 1 (srefer (fst (run (init_wheel 1000 0) [Start 1; HandleAdd]))) = true.
-Proof. split; [constructor; discriminate|reflexivity]. Qed.
+Proof. split; [apply reachable_from_wheel; [discriminate|vm_compute; reflexivity]|reflexivity]. Qed.
